@@ -62,6 +62,9 @@ def plan(tier):
 
 @st.composite
 def cases(draw):
+    # drawn first: late draws degrade to their simplest value when a large model exhausts the entropy budget
+    use_zip = draw(st.booleans())
+    chain = draw(st.integers(1, 3))
     ops, G = gen.gen_model_ops(draw, FEAT)
     spaces = G.all_spaces()
     extra = []
@@ -115,7 +118,7 @@ def cases(draw):
         params = G.find_cells(ctx.base, n)[1].params
         key = [draw(st.sampled_from([0, 1, 2, "k", -3])) for _ in params]
         extra.append(["set_value", gen._jsid(sid), n, key, draw(st.sampled_from([5, "text", 2.5, -1]))])
-    return {"ops": ops + extra, "zip": draw(st.booleans()), "chain": draw(st.integers(1, 3))}
+    return {"ops": ops + extra, "zip": use_zip, "chain": chain}
 
 
 def strategy(tier):
